@@ -88,6 +88,31 @@ func (c *cluster) checkPersisted(n, before *node, eff *effects, e Event) {
 			}
 		}
 	}
+	// PersistedLogTermsNonDecreasing: a direct consequence of Raft's append rule (a leader
+	// appends entries of its own term behind a log whose last term is not higher, a follower
+	// copies a leader's log): within one node's persisted log, snapshot boundary included, the
+	// entry terms never decrease and the indexes are consecutive.
+	prevT, prevI := n.snapTrm, n.snapIdx
+	for i := range n.log {
+		en := &n.log[i]
+		if en.Term < prevT {
+			c.fail("PersistedLogTermsNonDecreasing", "node %d: after %s its persisted log holds %s behind (index %d, t%d): entry terms go backwards; log=%s", n.id, evNames[e.K], descEntry(en), prevI, prevT, descLog(n))
+			break
+		}
+		if (prevI != 0 || i > 0) && en.Index != prevI+1 {
+			c.fail("PersistedLogTermsNonDecreasing", "node %d: after %s its persisted log holds index %d behind index %d: not consecutive; log=%s", n.id, evNames[e.K], en.Index, prevI, descLog(n))
+			break
+		}
+		prevT, prevI = en.Term, en.Index
+	}
+	// ReadyMutatedAfterHandOut (persist lag): the Ready that was just persisted, sent and
+	// applied differs from the deep copy taken when the library handed it out. The raft.Ready
+	// contract gives Entries / CommittedEntries / Messages / Snapshot to the application until
+	// Advance; if the library rewrites them while it steps later inputs, what the application
+	// persists is not what the library decided.
+	if eff.mutated != "" {
+		c.fail("ReadyMutatedAfterHandOut", "node %d: the Ready released by %s is not the Ready that was handed out: %s; persisted log afterwards: %s", n.id, evNames[e.K], eff.mutated, descLog(n))
+	}
 	if eff.snapIgnored {
 		c.fail("ObsoleteSnapshotInReady", "node %d: Ready after %s asked to install a snapshot at index %d although the node had already applied index %d (storage snapshot at %d)", n.id, evNames[e.K], eff.snapIdx, eff.snapBelow, before.snapIdx)
 	}
@@ -128,6 +153,10 @@ func (c *cluster) check(n, before *node, eff *effects, e Event) {
 			c.fail("CommitMonotonic", "node %d: restarted with commit index %d, persisted before the crash: %d", n.id, st.Commit, before.hs.Commit)
 		}
 		switch {
+		case n.heldWhole && st.Applied != n.appliedIdx:
+			// nothing of a Ready held as a whole has been applied or installed
+			c.fail("AppliedIndexAgreement", "node %d (holding an unpersisted Ready): the library believes index %d is applied, the application has applied %d", n.id, st.Applied, n.appliedIdx)
+		case n.heldWhole:
 		case !n.held && st.Applied != n.appliedIdx:
 			c.fail("AppliedIndexAgreement", "node %d: the library believes index %d is applied, the application has applied %d", n.id, st.Applied, n.appliedIdx)
 		case n.held && !(st.Applied == n.appliedIdx || (n.heldSnapIdx > 0 && n.appliedIdx == n.heldSnapIdx && st.Applied < n.appliedIdx)):
@@ -136,7 +165,20 @@ func (c *cluster) check(n, before *node, eff *effects, e Event) {
 			// (installed when the Ready was persisted)
 			c.fail("AppliedIndexAgreement", "node %d (holding a Ready): the library believes index %d is applied, the application has applied %d", n.id, st.Applied, n.appliedIdx)
 		}
-		if n.held {
+		if n.heldWhole {
+			// the held Ready's committed page (if any) starts right behind what is applied - or
+			// behind the snapshot the same Ready carries - and ends at or below the commit index
+			lo := n.appliedIdx + 1
+			if n.heldSnapIdx >= lo {
+				lo = n.heldSnapIdx + 1
+			}
+			if n.heldHi != 0 && (n.heldLo != lo || n.heldHi < n.heldLo || n.heldHi > st.Commit) {
+				c.fail("HeldPageBounds", "node %d holds an unpersisted Ready with committed page %d..%d, applied index %d, snapshot %d, commit %d", n.id, n.heldLo, n.heldHi, n.appliedIdx, n.heldSnapIdx, st.Commit)
+			}
+			if st.Term < hs.Term || st.Commit < hs.Commit || st.Term < n.heldHS.Term || st.Commit < n.heldHS.Commit {
+				c.fail("HardStatePersisted", "node %d (holding an unpersisted Ready with hs=(t%d,c%d)): in-memory (t%d,c%d) is behind it or behind the persisted (t%d,c%d)", n.id, n.heldHS.Term, n.heldHS.Commit, st.Term, st.Commit, hs.Term, hs.Commit)
+			}
+		} else if n.held {
 			// the held page is what the library handed out and the application has not applied yet
 			if n.heldLo != n.appliedIdx+1 || n.heldHi < n.heldLo || n.heldHi > hs.Commit {
 				c.fail("HeldPageBounds", "node %d holds committed page %d..%d with applied index %d and persisted commit %d", n.id, n.heldLo, n.heldHi, n.appliedIdx, hs.Commit)
@@ -346,7 +388,7 @@ func (c *cluster) logMatching(a, b *node) {
 // expander.complete), and only the resulting genuine violation is reported.
 // Only used for fixed memberships (majority of the initial members).
 func (c *cluster) electableWithoutCommitted() (uint64, uint64) {
-	if c.cfg.joiners() > 0 || c.bud.Lags > 0 {
+	if c.cfg.joiners() > 0 || c.bud.Lags > 0 || c.bud.Plags > 0 {
 		return 0, 0
 	}
 	type last struct{ term, idx uint64 }
